@@ -45,6 +45,26 @@ type snapshot struct {
 	crash   bool // not a commit: the committed image as found changed between two commits
 }
 
+// ledgerDigest is chainx.Ledger.Digest(true) built in linear time (thousands of elements).
+func ledgerDigest(l *chainx.Ledger) string {
+	lines := make([]string, 0, len(l.SC)+len(l.SF)+len(l.FC)+len(l.V2FC)+1)
+	pf := func(se types.StateElement) string { return fmt.Sprint(se.LeafIndex, se.MerkleProof) }
+	for id, e := range l.SC {
+		lines = append(lines, fmt.Sprintf("sc %v %v %v %d %s", id, e.SiacoinOutput.Address, e.SiacoinOutput.Value, e.MaturityHeight, pf(e.StateElement)))
+	}
+	for id, e := range l.SF {
+		lines = append(lines, fmt.Sprintf("sf %v %v %d %v %s", id, e.SiafundOutput.Address, e.SiafundOutput.Value, e.ClaimStart, pf(e.StateElement)))
+	}
+	for id, e := range l.FC {
+		lines = append(lines, fmt.Sprintf("fc %v rev %d we %d %s", id, e.FileContract.RevisionNumber, e.FileContract.WindowEnd, pf(e.StateElement)))
+	}
+	for id, e := range l.V2FC {
+		lines = append(lines, fmt.Sprintf("v2fc %v rev %d %s", id, e.V2FileContract.RevisionNumber, pf(e.StateElement)))
+	}
+	sort.Strings(lines)
+	return fmt.Sprintf("tip %v\n", l.Tip) + strings.Join(lines, "\n")
+}
+
 func encode(v types.EncoderTo) []byte {
 	var buf bytes.Buffer
 	e := types.NewEncoder(&buf)
@@ -63,6 +83,8 @@ var Opt struct {
 	// NoArm: no forced flushes at all; the store commits only where it does on its own (the end of
 	// every reorg), so a whole failed-and-rolled-back reorg lies inside one uncommitted window
 	NoArm bool
+	// NoModel: oracle-only (histories whose size is out of proportion for the line protocol)
+	NoModel bool
 	// FlushFaultAt k > 0: the k-th commit the store issues from inside ApplyBlock/RevertBlock fails at
 	// the database, which discards the batch.  The store's answer to that is to panic (the process
 	// dies: a stop like any other); carrying on is the failure `failed-commit-ignored`.
@@ -98,7 +120,31 @@ func HistoryVia(r *vh.Run, name string, t *chainx.Tree, ids *c02.IDs, decls map[
 	var rig *c02.Rig
 	curBatch, inOp, storeOps := -1, false, 0
 	rec := &kvx.Rec{Inner: be.DB}
+	// under a write cache the commits that matter are those of the physical database: each of them
+	// is recorded as a commit point, and one Flush of the cache must issue exactly one
+	physSince := 0
+	takeSnap := func(n int, img kvx.Image) {
+		s := &snapshot{n: n, batch: curBatch, mid: inOp, img: img, ops: storeOps}
+		s.tip = c02.DurableLine(t, s.img)
+		if rig != nil {
+			s.tainted = rig.Tainted
+		}
+		snaps = append(snaps, s)
+	}
+	if be.Physical != nil {
+		be.Physical.OnFlush = func(n int) {
+			physSince++
+			takeSnap(n, be.Snapshot())
+		}
+	}
 	rec.OnFlush = func(n int) {
+		if be.Physical != nil {
+			if physSince != 1 {
+				c.Oracle("cachedb-flush-commits-more-than-once", "one Flush of the CacheDB (after %d store ops, batch %d) committed the underlying database %d times: a stop between two of them leaves part of one store commit durable", storeOps, curBatch, physSince)
+			}
+			physSince = 0
+			return
+		}
 		s := &snapshot{n: n, batch: curBatch, mid: inOp, img: be.Snapshot(), ops: storeOps}
 		if be.CopyFile != nil {
 			s.file = filepath.Join(dir, fmt.Sprintf("commit%d.db", n))
@@ -139,6 +185,9 @@ func HistoryVia(r *vh.Run, name string, t *chainx.Tree, ids *c02.IDs, decls map[
 		checkCommitted(fmt.Sprintf("before the Flush after %d store ops (batch %d)", storeOps, curBatch))
 	}
 	noArm, faultAt := Opt.NoArm, Opt.FlushFaultAt
+	if Opt.NoModel {
+		c.Model = ""
+	}
 	midFlushes, injectedAt := 0, ""
 	if faultAt > 0 {
 		c.Model = "" // the model has no failing commit; these histories are oracle-only
@@ -383,7 +432,7 @@ func reopen(c *vh.Case, t *chainx.Tree, ids *c02.IDs, decls map[int]*c02.Decl, o
 	if t.AllValid(tid) {
 		tw := rig2.TwinNode(tid)
 		la, lb := chainx.LedgerOf(nd), chainx.LedgerOf(tw)
-		if la.Digest(true) != lb.Digest(true) {
+		if ledgerDigest(la) != ledgerDigest(lb) {
 			if s.tainted {
 				c2.Oracle(c02.ClassExpOrder, "%s: the ledger folded from UpdatesSince differs from the linear node's (history reverted a mid-list removal)", where)
 			} else {
@@ -586,6 +635,72 @@ func DirectedV1Batches(r *vh.Run, rng *vh.RNG, name string, maxReopen int) {
 	}
 }
 
+// DirectedBigCommit: the scale side.  One block whose single transaction creates several thousand
+// outputs, applied on a store over CacheDB without forced flushes: one store commit carrying far
+// more than 2^14 writes (elements and accumulator nodes).  Whatever the cache does to the physical
+// database while flushing, every commit of the physical database is a point the process can stop
+// after, and is reopened.
+func DirectedBigCommit(r *vh.Run, rng *vh.RNG, name string, outputs, maxReopen int) {
+	net := chainx.NewNet(rng, 1000, 2000, 2)
+	t := chainx.NewTree(net)
+	tip := 0
+	var big int
+	msg := c02.Guarded(func() {
+		for i := 0; i < 3; i++ {
+			tip = t.Mine(rng, tip, chainx.Spec{Kinds: []string{"v1pay"}, Dt: 1})
+		}
+		tw := t.Twin(tip)
+		cs := tw.CM.TipState()
+		coins := net.Spendable(chainx.LedgerOf(tw), cs.Index.Height+1)
+		var c types.SiacoinElement
+		for _, x := range coins {
+			if x.SiacoinOutput.Value.Cmp(c.SiacoinOutput.Value) > 0 {
+				c = x
+			}
+		}
+		// a chain of transactions inside the block, each spending the change of the previous one and
+		// creating 100 small outputs (one transaction with thousands of outputs would make every
+		// application of the block quadratic: an output id hashes the whole transaction)
+		fee := types.Siacoins(1).Div64(100)
+		small := types.Siacoins(1).Div64(1000)
+		var txns []types.Transaction
+		parent, value := c.ID, c.SiacoinOutput.Value
+		for n := 0; n < outputs; n += 100 {
+			change := value.Sub(fee).Sub(small.Mul64(100))
+			txn := types.Transaction{
+				SiacoinInputs:  []types.SiacoinInput{{ParentID: parent, UnlockConditions: net.UC}},
+				SiacoinOutputs: []types.SiacoinOutput{{Address: net.Addr, Value: change}},
+				MinerFees:      []types.Currency{fee},
+			}
+			for i := 0; i < 100; i++ {
+				txn.SiacoinOutputs = append(txn.SiacoinOutputs, types.SiacoinOutput{Address: net.Addr2, Value: small})
+			}
+			net.SignV1(cs, &txn)
+			txns = append(txns, txn)
+			parent, value = txn.SiacoinOutputID(0), change
+		}
+		var err error
+		big, err = t.MineWith(rng, tip, txns, nil, 1)
+		if err != nil {
+			panic(err)
+		}
+		tip = t.Mine(rng, big, chainx.Spec{Kinds: []string{"v1pay"}, Dt: 1})
+	})
+	if msg != "" {
+		c := &vh.Case{Name: name}
+		c.Oracle("generator-block-rejected", "%s", msg)
+		r.Add(c)
+		return
+	}
+	path := t.PathFromRoot(tip)
+	sched := [][]int{path[:3], {big}, path[4:]}
+	ids := c02.NewIDs()
+	decls := c02.Declare(t, ids)
+	Opt.NoArm, Opt.NoModel = true, true
+	HistoryVia(r, name+"/cache", t, ids, decls, sched, make([]bool, len(sched)), "cache", rng.Fork(), false, maxReopen)
+	Opt.NoArm, Opt.NoModel = false, false
+}
+
 // DirectedCommitFailure: ordinary fork histories in which one commit issued from inside
 // ApplyBlock/RevertBlock fails at the database and the batch is discarded.
 func DirectedCommitFailure(r *vh.Run, rng *vh.RNG, name string, maxReopen int) {
@@ -701,6 +816,10 @@ func Run(r *vh.Run) {
 				HistoryVia(r, fmt.Sprintf("side-then-prevalidated%d/%s", i, kind), t, ids, decls, sched, via, kind, vrng.Fork(), true, maxReopen)
 			}
 		})
+	}
+	{
+		grng := rng.Fork()
+		c02.Safely(r, "big-commit", func() { DirectedBigCommit(r, grng, "big-commit", r.Pick(7000, 20000), maxReopen) })
 	}
 	for i := 0; i < r.Pick(3, 30); i++ {
 		brng := rng.Fork()
